@@ -101,8 +101,13 @@ void h_const_lssb(void)
 	VCOVER(r == -1, "zero");
 }
 
-/* compile-time use: the same expressions as integer constant expressions */
-_Static_assert(const_pop(0) == 0 && const_pop(0xffffffffffffffffull) == 64 && const_pop(0x8000000000000001ull) == 2, "const_pop folds");
-_Static_assert(const_lssb(0) == -1 && const_lssb(1) == 0 && const_lssb(0x8000000000000000ull) == 63 && const_lssb(0x00f0) == 4, "const_lssb folds");
+/* compile-time use: the same expressions with constant arguments (folded by the compiler) */
+void h_const_folded(void)
+{
+	VASSERT(const_pop(0) == 0 && const_pop(0xffffffffffffffffull) == 64 && const_pop(0x8000000000000001ull) == 2 && const_pop(0x00010000) == 1,
+		"C16 const_pop on constant arguments");
+	VASSERT(const_lssb(0) == -1 && const_lssb(1) == 0 && const_lssb(0x8000000000000000ull) == 63 && const_lssb(0x00f0) == 4,
+		"C16 const_lssb on constant arguments");
+}
 
-VERIF_ENTRIES(E(h_bitcnt) E(h_clz) E(h_ctz) E(h_ilog2) E(h_ctz_field) E(h_const_pop) E(h_const_lssb))
+VERIF_ENTRIES(E(h_bitcnt) E(h_clz) E(h_ctz) E(h_ilog2) E(h_ctz_field) E(h_const_pop) E(h_const_lssb) E(h_const_folded))
